@@ -15,7 +15,7 @@ m = {
  "engines": [
   {"name": "vcheck", "path": "harness", "serves_properties": ["C%02d" % i for i in range(1, 20)],
    "kind_free_text": "Rust binary (proptest 1.11 TestRunner from a binary, 16 lanes, fixed seeds, shrinking): tape-driven sprite/plan/mutation generators built by construction, model+encoder with field map, explicit oracles per property, isolated worker processes with a counting/denying allocator, C++ Aseprite blend reference linked via cc"},
-  {"name": "libfuzzer", "path": "harness/fuzz", "serves_properties": ["C04", "C05", "C12"],
+  {"name": "libfuzzer", "path": "harness/fuzz", "serves_properties": ["C04", "C05"],
    "kind_free_text": "cargo-fuzz targets used only by thorough tiers (coverage-guided, oracle inside the target)"}
  ],
  "checks": [],
